@@ -29,7 +29,116 @@ type SpecEnv struct {
 	deriveDepth int
 	deriving map[string]bool // ghost fields whose derivation is being expanded (no self-recursion)
 	qprefix  string          // name prefix of variables bound by a quantified assigns target (default q$)
+	// scope: the guards and binders enclosing the sub-formula being
+	// translated; a type invariant of a heap read is asserted as a closed
+	// axiom under exactly these (scopeElem), never inside the formula itself.
+	scope []scopeElem
 }
+
+type scopeElem struct {
+	guard  string // a condition that holds where the sub-formula is evaluated
+	binds  string // or: a binder list "((q$k Int))" ...
+	tguard string // ... with the type facts of the bound variables
+	vars   []string
+	bindList []string // one "(name sort)" per variable
+}
+
+// addFact records f (a fact about a value read from the heap) as a closed
+// axiom: f under the guards and binders in scope.
+func (e *SpecEnv) addFact(f string) { e.addFactT(f, "") }
+
+// addFactT: t is the term the fact is about (used as the instantiation
+// pattern when the fact ends up under a binder).
+func (e *SpecEnv) addFactT(f, t string) {
+	if e.facts == nil || f == "" || f == "true" {
+		return
+	}
+	// bound variables the fact itself speaks about; guards that mention other
+	// bound variables cannot be what makes the fact true and are left out
+	// (for all k: g(k) ==> f, with f independent of k, is f whenever some k
+	// satisfies g)
+	var allVars []string
+	for _, sc := range e.scope {
+		allVars = append(allVars, sc.vars...)
+	}
+	own := map[string]bool{}
+	for _, v := range allVars {
+		if containsToken(f, v) {
+			own[v] = true
+		}
+	}
+	foreign := func(g string) bool {
+		// a guard that is itself quantified cannot be what a type invariant
+		// depends on either
+		if strings.Contains(g, "(forall ") || strings.Contains(g, "(exists ") {
+			return true
+		}
+		for _, v := range allVars {
+			if !own[v] && containsToken(g, v) {
+				return true
+			}
+		}
+		return false
+	}
+	var innerVars []string
+	for i := len(e.scope) - 1; i >= 0; i-- {
+		sc := e.scope[i]
+		if sc.binds == "" {
+			if sc.guard != "true" && sc.guard != "" && !foreign(sc.guard) {
+				f = implies(sc.guard, f)
+			}
+			continue
+		}
+		var bs []string
+		all := true
+		for _, iv := range innerVars {
+			if t != "" && containsToken(t, iv) {
+				all = false // the term is only meaningful under an inner binder
+			}
+		}
+		innerVars = append(innerVars, sc.vars...)
+		for k, v := range sc.vars {
+			if own[v] {
+				bs = append(bs, sc.bindList[k])
+				if t == "" || !containsToken(t, v) {
+					all = false
+				}
+			}
+		}
+		if len(bs) == 0 {
+			continue
+		}
+		tg := sc.tguard
+		if foreign(tg) {
+			tg = "true"
+		}
+		body := implies(tg, f)
+		if all && t != "" && !strings.Contains(t, "(+ ") && !strings.Contains(t, "(- ") && !strings.Contains(t, "(* ") {
+			// (arithmetic inside a pattern defeats E-matching)
+			body = "(! " + body + " :pattern (" + t + "))"
+		}
+		f = "(forall (" + strings.Join(bs, " ") + ") " + body + ")"
+	}
+	*e.facts = append(*e.facts, f)
+}
+
+func containsToken(s, tok string) bool {
+	for i := 0; ; {
+		j := strings.Index(s[i:], tok)
+		if j < 0 {
+			return false
+		}
+		k := i + j + len(tok)
+		if k >= len(s) || s[k] == ' ' || s[k] == ')' {
+			return true
+		}
+		i = k
+	}
+}
+
+func (e *SpecEnv) pushGuard(g string) { e.scope = append(e.scope, scopeElem{guard: g}) }
+func (e *SpecEnv) popScope()           { e.scope = e.scope[:len(e.scope)-1] }
+
 
 var untypedInt = types.Typ[types.UntypedInt]
 
@@ -75,10 +184,11 @@ func (e *SpecEnv) boolTerm(x Expr) (string, error) {
 		return "", fmt.Errorf("boolean expected: %s", exprString(x))
 	}
 	if top && len(*e.facts) > 0 {
-		if e.goal {
-			return implies(and(dedupStrs(*e.facts)...), v.T), nil
+		// type invariants of what the formula reads: assumed as axioms of the
+		// well-typed heap, for formulas to be proved and formulas assumed alike
+		for _, f := range dedupStrs(*e.facts) {
+			e.c.assertFact(f)
 		}
-		return and(append(dedupStrs(*e.facts), v.T)...), nil
 	}
 	return v.T, nil
 }
@@ -103,7 +213,7 @@ func (e *SpecEnv) readFact(t string, typ types.Type) {
 	switch typ.Underlying().(type) {
 	case *types.Basic, *types.Slice, *types.Pointer:
 		if f := e.c.typeFacts(t, typ, ""); f != "true" {
-			*e.facts = append(*e.facts, f)
+			e.addFactT(f, t)
 		}
 	}
 }
@@ -227,13 +337,7 @@ func (e *SpecEnv) term(x Expr) (Val, error) {
 	case *EIdent:
 		return e.ident(n.Name)
 	case *EUn:
-		if n.Op == "!" {
-			e.goal = !e.goal
-		}
 		v, err := e.term(n.X)
-		if n.Op == "!" {
-			e.goal = !e.goal
-		}
 		if err != nil {
 			return Val{}, err
 		}
@@ -263,11 +367,15 @@ func (e *SpecEnv) term(x Expr) (Val, error) {
 		if err != nil {
 			return Val{}, err
 		}
+		e.pushGuard(cnd)
 		a, err := e.term(n.A)
+		e.popScope()
 		if err != nil {
 			return Val{}, err
 		}
+		e.pushGuard(not(cnd))
 		b, err := e.term(n.B)
+		e.popScope()
 		if err != nil {
 			return Val{}, err
 		}
@@ -308,20 +416,27 @@ func (e *SpecEnv) term(x Expr) (Val, error) {
 				}
 			}
 		}
-		ne.facts = &[]string{}
+		var bvars []string
+		for _, bv := range n.Vars {
+			bvars = append(bvars, "q$"+bv.Name)
+		}
+		if ne.facts == nil {
+			ne.facts = &[]string{}
+			defer func() {
+				for _, f := range dedupStrs(*ne.facts) {
+					c.assertFact(f)
+				}
+			}()
+		}
+		ne.scope = append(append([]scopeElem{}, e.scope...), scopeElem{binds: "(" + strings.Join(binds, " ") + ")", tguard: and(guards...), vars: bvars, bindList: binds})
 		body, err := ne.boolTerm(n.Body)
 		if err != nil {
 			return Val{}, err
 		}
-		fs := dedupStrs(*ne.facts)
 		k := "exists"
 		if n.Forall {
 			k = "forall"
-			if e.goal {
-				body = implies(and(append(guards, fs...)...), body)
-			} else {
-				body = implies(and(guards...), and(append(fs, body)...))
-			}
+			body = implies(and(guards...), body)
 			// trigger: the left side of the concluding equality, when it is an
 			// application mentioning every bound variable
 			if len(n.Pats) > 0 {
@@ -344,14 +459,7 @@ func (e *SpecEnv) term(x Expr) (Val, error) {
 				body += ")"
 			}
 		} else {
-			if e.goal {
-				// to be proved: the type invariants of what the body reads are
-				// premises (they hold of every well-typed heap), the witness itself
-				// must be well-formed
-				body = and(append(append([]string{}, guards...), implies(and(fs...), body))...)
-			} else {
-				body = and(append(append(guards, fs...), body)...)
-			}
+			body = and(append(append([]string{}, guards...), body)...)
 			if len(n.Pats) > 0 {
 				var ps []string
 				for _, pe := range n.Pats {
@@ -395,36 +503,22 @@ func (e *SpecEnv) binary(n *EBin) (Val, error) {
 	c := e.c
 	switch n.Op {
 	case "&&", "||", "==>", "<==>":
-		if n.Op == "==>" && e.facts != nil {
-			// type invariants of the heap values read by an implication belong
-			// under its guard: premises when proving, conclusions when assuming
-			outer := e.facts
-			e.facts = &[]string{}
-			// the antecedent has the opposite polarity: what is assumed when
-			// proving the implication, and to be established when using it
-			e.goal = !e.goal
-			a, err := e.boolTerm(n.L)
-			e.goal = !e.goal
-			if err != nil {
-				e.facts = outer
-				return Val{}, err
-			}
-			b, err := e.boolTerm(n.R)
-			fs := dedupStrs(*e.facts)
-			e.facts = outer
-			if err != nil {
-				return Val{}, err
-			}
-			if e.goal {
-				return Val{T: implies(and(append(fs, a)...), b), Typ: boolT}, nil
-			}
-			return Val{T: implies(a, and(append(fs, b)...)), Typ: boolT}, nil
-		}
 		a, err := e.boolTerm(n.L)
 		if err != nil {
 			return Val{}, err
 		}
+		// the right operand is evaluated where the left one holds (&&, ==>) or
+		// fails (||): facts about what it reads are stated under that guard
+		switch n.Op {
+		case "&&", "==>":
+			e.pushGuard(a)
+		case "||":
+			e.pushGuard(not(a))
+		default:
+			e.pushGuard("true")
+		}
 		b, err := e.boolTerm(n.R)
+		e.popScope()
 		if err != nil {
 			return Val{}, err
 		}
@@ -777,7 +871,7 @@ func (e *SpecEnv) selector(n *ESel) (Val, error) {
 					case *types.Pointer, *types.Interface, *types.Map:
 						// references stored in a heap version existed when it was made
 						if fr, ok := c.frontier[hv]; ok && fr != "" {
-							*e.facts = append(*e.facts, c.typeFacts(rt, ft, fr))
+							e.addFactT(c.typeFacts(rt, ft, fr), rt)
 						}
 					}
 				}
@@ -829,7 +923,7 @@ func (e *SpecEnv) index(n *EIndex) (Val, error) {
 			switch u.Elem().Underlying().(type) {
 			case *types.Pointer, *types.Interface, *types.Map:
 				if fr, ok := c.frontier[hv]; ok && fr != "" {
-					*e.facts = append(*e.facts, c.typeFacts(rt, u.Elem(), fr))
+					e.addFactT(c.typeFacts(rt, u.Elem(), fr), rt)
 				}
 			}
 		}
@@ -1615,6 +1709,7 @@ func (e *SpecEnv) targets(x Expr) ([]havocTarget, error) {
 			}
 		}
 		body := n.Body
+		ne.facts = &[]string{}
 		if b, ok := body.(*EBin); ok && b.Op == "==>" {
 			g, err := ne.boolTerm(b.L)
 			if err != nil {
@@ -1928,7 +2023,7 @@ func (e *SpecEnv) ghostRead(g *GhostDecl, v Val, depth int) (Val, error) {
 		case *types.Pointer, *types.Interface:
 			hv := c.heapGet(e.cur, h, c.heapSort[h])
 			if fr, ok := c.frontier[hv]; ok && fr != "" {
-				*e.facts = append(*e.facts, c.typeFacts(res, t, fr))
+				e.addFactT(c.typeFacts(res, t, fr), res)
 			}
 		}
 	}
@@ -1936,13 +2031,13 @@ func (e *SpecEnv) ghostRead(g *GhostDecl, v Val, depth int) (Val, error) {
 		// reader invariant: the position never passes the end
 		if sg, ok := c.W.Specs.Ghosts["send"]; ok {
 			if sv, err := e.ghostRead(sg, v, depth); err == nil {
-				*e.facts = append(*e.facts, "(<= "+res+" "+sv.T+")")
+				e.addFact("(<= " + res + " " + sv.T + ")")
 			}
 		}
 	}
 	if c.Mode == ModeInt && (g.Val == "mathint" || g.Val == "int") && (g.Name == "accepted" || g.Name == "wrapped" || g.Name == "spos" || g.Name == "send") && e.facts != nil {
 		// stated assumption: byte counters of readers/writers stay in [0, 2^62]
-		*e.facts = append(*e.facts, "(and (<= 0 "+res+") (<= "+res+" 4611686018427387904))")
+		e.addFact("(and (<= 0 " + res + ") (<= " + res + " 4611686018427387904))")
 	}
 	return Val{T: res, Typ: t}, nil
 }
